@@ -48,11 +48,11 @@ STD_ENUMS = {
     'core::task::poll::Poll': {'0': 'Ready', '1': 'Pending'},
 }
 
-Store = namedtuple('Store', 'S P T V len0 own resched sched pend S0 pan pre acq0 act pushed')
+Store = namedtuple('Store', 'S P T V len0 own resched sched pend S0 pan pre acq0 act pushed rel')
 
 
 def mk_store(T='N', P=None):
-    return Store(S=None, P=P, T=T, V=(), len0='?', own='?', resched=0, sched=0, pend=0, S0=None, pan=0, pre=None, acq0=None, act=0, pushed=0)
+    return Store(S=None, P=P, T=T, V=(), len0='?', own='?', resched=0, sched=0, pend=0, S0=None, pan=0, pre=None, acq0=None, act=0, pushed=0, rel=None)
 
 
 def vget(st, l):
@@ -780,6 +780,8 @@ class Proto:
                     else:
                         role = 'nonowner'
                 x = x._replace(S=frozenset([s2]), T=T, S0=x.S0 if x.S0 is not None else frozenset([s]))
+                if role == 'owner' and T == 'R':
+                    x = x._replace(rel=s2)
                 if s2 != s:
                     x = self._unsame(x)
                 if role == 'owner' and s2 == 'Idle' and s != s2:
@@ -828,6 +830,7 @@ class Proto:
                 self.viol.append(('TOK-requeue', self._evn(fn), 'returns while a job that returned Pending has not been put back', fn.loc(bb)))
             self.events[('exit', self._evn(fn), '')].add((st.T, ret))
             self.events[('exit_pan', self._evn(fn), '')].add((st.pan, ret))
+            self.events[('exit_state', self._evn(fn), '')].add((st.T, st.rel, ret))
             self.events[('exit_act', self._evn(fn), '')].add((st.pre, st.act))
             self.events[('exit_reg', self._evn(fn), '')].add((ret, st.act & 4, st.act & 8))
 
